@@ -126,7 +126,7 @@ def run(ctx):
                 x, y = rng.uniform(0.3, 3), rng.uniform(0.3, 3)
                 (a1, a2), (b1, b2) = perturbed(rng, x), perturbed(rng, y)
                 A, B = Bicomplex(a1, a2), Bicomplex(b1, b2)
-                k = rng.choice([-3, -2, -1, 2, 3, 4])
+                k = rng.choice([-3, -2, -1, 0, 0, 1, 2, 3, 4, 5, 7, 0.0, 2.0, np.int64(0), np.int64(3)])
                 r = rng.uniform(-2.5, 2.5)
                 ctx.tried((op, a1, a2, b1, b2))
                 try:
